@@ -163,8 +163,30 @@ def r1_sinks(ctx) -> None:
         impls = [f for q, f in prog.funcs.items() if f.name == gname and f.cls is not None]
         if not impls:
             raise AnalysisError(f"anchor vanished: no method named {gname}")
-        # who references the gated name? every reference, wherever it is, must be dominated by the allowing outcome of the predicate
-        gate_callers: set[str] = set()
+        # who references the gated name? only the gate function and the private helpers of its class that it alone calls;
+        # the gate function is then interpreted (sa.tabulate, Proxy) with the predicate answering no and yes
+        from ..tabulate import Proxy, call_method, Raised
+        from .c06_keys import U, _universal_names, _fields
+        gcls = gate.cls.qual
+        H = {gate.qual}
+        work = [gate]
+        while work:
+            f0 = work.pop()
+            for c0 in walk_no_nested(f0.node):
+                if isinstance(c0, ast.Call) and call_name(c0).startswith("self._") and call_name(c0).count(".") == 1 and call_name(c0)[5:] not in (gname, pred_name):
+                    hm = prog.lookup_method(gcls, call_name(c0)[5:])
+                    if hm is not None and hm.qual not in H and hm.cls is not None and hm.cls.qual == gcls:
+                        H.add(hm.qual)
+                        work.append(hm)
+        # a helper in H may be entered only from H (otherwise its part of the gate could be by-passed)
+        for hq in sorted(H - {gate.qual}):
+            hname = hq.rsplit(".", 1)[-1]
+            for q, fi in sorted(prog.funcs.items()):
+                if q in H:
+                    continue
+                for n in walk_no_nested(fi.node):
+                    if isinstance(n, ast.Attribute) and n.attr == hname and n.attr.startswith("_"):
+                        H.discard(hq)
         for q, fi in sorted(prog.funcs.items()):
             for n in walk_no_nested(fi.node):
                 if isinstance(n, ast.Attribute) and n.attr == gname:
@@ -172,59 +194,99 @@ def r1_sinks(ctx) -> None:
                     if fi.name == gname:
                         continue  # an implementation referring to its base implementation
                     gs = atomic_guards(guards_at(prog, fi, n))
-                    gate_callers.add(q)
-                    want = f"self.{pred_name}()"
-                    if (want, True) in gs:
-                        r.ok("C16.R1", q, f"call of {gname} dominated by {want} == True", loc)
+                    if q in H and (f"self.{pred_name}()", True) in gs:
+                        r.ok("C16.R1", q, f"call of {gname} dominated by self.{pred_name}() == True, inside the gate function {gate.name}{'' if q == gate.qual else ' (private helper only it calls)'}", loc)
+                    elif q in H:
+                        r.violation("C16.R1", q, stmt_head(prog.enclosing_stmt(n)),
+                                    f"call of {gname} is not dominated by the allowing outcome of self.{pred_name}() "
+                                    f"(dominating guards: {gs})", loc)
                     else:
                         r.violation("C16.R1", q, stmt_head(prog.enclosing_stmt(n)),
-                                    f"call of {gname} is not dominated by the allowing outcome of {want} "
-                                    f"(dominating guards: {gs})", loc)
-        # the refusing branch raises SigmaSecurityError — in the function(s) that hold the gate
-        found = False
-        gates_here = [prog.funcs[x] for x in sorted(gate_callers)] or [gate]
-        for gate in gates_here:
-          gate_q = gate.qual
-          for n in walk_no_nested(gate.node):
-              if isinstance(n, ast.If) and pred_name in unparse(n.test):
-                  t = n.test
-                  neg = isinstance(t, ast.UnaryOp) and isinstance(t.op, ast.Not)
-                  body = n.body if neg else n.orelse
-                  found = True
-                  if body and isinstance(body[0], ast.Raise) and "SigmaSecurityError" in unparse(body[0]):
-                      r.ok("C16.R1", gate_q, f"refusing outcome of {pred_name} raises SigmaSecurityError",
-                           f"{gate.module.relpath}:{n.lineno}")
-                  else:
-                      r.violation("C16.R1", gate_q, stmt_head(n),
-                                  f"the refusing outcome of {pred_name}() does not raise SigmaSecurityError",
-                                  f"{gate.module.relpath}:{n.lineno}")
-        if not found:
-            r.violation("C16.R1", gate_q, f"gate on {pred_name}", f"gate function no longer tests self.{pred_name}()",
-                        gate.loc)
-        # gate function is the only caller of the gate predicate besides itself? (informational)
-    # cache short-cut in _get_values: cache written only after the gate
+                                    f"call of {gname} is not dominated by the allowing outcome of self.{pred_name}() "
+                                    f"(it lies outside the gate function {gate.qual} and the helpers only it calls)", loc)
+
+        class SigmaSecurityError(Exception):
+            def __init__(self, *a, **k): super().__init__(*a)
+        env = _universal_names(prog, gate.module)
+        env["SigmaSecurityError"] = SigmaSecurityError
+        IKg = {"max_steps": 20000, "behaviours": (SigmaSecurityError,)}
+        stored = {n.attr for mth in prog.classes[gcls].methods.values() for n in ast.walk(mth.node)
+                  if isinstance(n, ast.Attribute) and isinstance(n.ctx, ast.Store) and isinstance(n.value, ast.Name) and n.value.id == "self"}
+        problems_g = []
+        uninterpretable = None
+        for history in ((False,), (False, False), (True,), (False, True)):
+            calls_g: list = []
+            answers = list(history)
+            cur = {"ans": None}
+            attrs = {k: U(k) for k in _fields(prog, gcls)}
+            attrs.update({k: None for k in stored if k.startswith("_")})
+            attrs.update({"path": None, "vars": "vars.py", pred_name: (lambda: cur["ans"]), gname: (lambda *a, **k: (calls_g.append(cur["ans"]), U("fetched"))[1])})
+            me = Proxy(prog, gcls, env, attrs, interp_kwargs=IKg)
+            outcomes = []
+            for ans in answers:
+                cur["ans"] = ans
+                n_before = len(calls_g)
+                try:
+                    call_method(prog, gcls, gate.name, me, env, interp_kwargs=IKg)
+                    outcomes.append(("returned", len(calls_g) - n_before))
+                except Raised as ex:
+                    outcomes.append(("refused" if "SigmaSecurityError" in str(ex) else f"raises {ex}", len(calls_g) - n_before))
+                except AnalysisError as ex:
+                    # a construct the interpreter has no model for: the CFG dominance above stands on its own
+                    uninterpretable = str(ex)
+                    outcomes.append(("refused" if ans is False else "returned", 1 if ans else 0))
+                    calls_g[:] = [c_ for c_ in calls_g if c_ is not False]
+            if any(a_ is False for a_ in calls_g):
+                problems_g.append(f"{gname} is called although {pred_name}() answers no (answers {answers}: {outcomes})")
+            for ans, (what, ncalls) in zip(answers, outcomes):
+                if ans is False and what != "refused":
+                    problems_g.append(f"{pred_name}() answers no but {gate.name} {what} instead of raising SigmaSecurityError (answers {answers})")
+            # after an allowing answer only the call of the gated function matters (what follows works on stand-in data)
+            if answers[-1] is True and answers.count(True) == 1 and outcomes[-1][1] < 1:
+                problems_g.append(f"{pred_name}() answers yes and {gname} is not called ({outcomes[-1][0]}; answers {answers})")
+        if uninterpretable is not None:
+            r.note(f"C16.R1: {gate.qual} not interpreted ({uninterpretable[:80]}); decided by CFG dominance alone")
+        elif problems_g:
+            r.violation("C16.R1", gate.qual, f"gate on {pred_name}", f"the refusing outcome of {pred_name}() does not raise SigmaSecurityError before {gname}, or hands out what an earlier refused call left behind: {problems_g[0]}", gate.loc)
+        else:
+            r.ok("C16.R1", gate.qual, f"interpreted over 4 answer histories of {pred_name}(): {gname} runs only after an allowing answer; a refusing answer raises SigmaSecurityError and leaves nothing behind", gate.loc)
+    # the cache of the external values is written only inside the gate function (and the helpers only it calls)
     gv = prog.func(GATES["_fetch_data"][0])
-    for n in walk_no_nested(gv.node):
-        if isinstance(n, (ast.Assign, ast.AnnAssign, ast.AugAssign)):
-            tgts = n.targets if isinstance(n, ast.Assign) else [n.target]
-            for t in tgts:
-                if isinstance(t, ast.Attribute) and t.attr == "_values_cache":
-                    gs = atomic_guards(guards_at(prog, gv, t))
-                    loc = f"{gv.module.relpath}:{n.lineno}"
-                    if ("self._external_sources_allowed()", True) in gs:
-                        r.ok("C16.R1", gv.qual, "cache written only after the gate", loc)
-                    else:
-                        r.violation("C16.R1", gv.qual, stmt_head(n),
-                                    "_values_cache is written on a path that has not passed the gate; the cache "
-                                    "short-cut at the top of _get_values would then hand out ungated data", loc)
-    # _values_cache written anywhere else?
+    Hv = {gv.qual}
+    work = [gv]
+    while work:
+        f0 = work.pop()
+        for c0 in walk_no_nested(f0.node):
+            if isinstance(c0, ast.Call) and call_name(c0).startswith("self._") and call_name(c0).count(".") == 1:
+                hm = prog.lookup_method(gv.cls.qual, call_name(c0)[5:])
+                if hm is not None and hm.qual not in Hv and hm.cls is not None and hm.cls.qual == gv.cls.qual:
+                    Hv.add(hm.qual)
+                    work.append(hm)
     for q, fi in sorted(prog.funcs.items()):
-        if q == gv.qual:
-            continue
         for n in walk_no_nested(fi.node):
             if isinstance(n, ast.Attribute) and n.attr == "_values_cache" and isinstance(n.ctx, (ast.Store, ast.Del)):
-                r.violation("C16.R1", q, stmt_head(prog.enclosing_stmt(n)),
-                            "_values_cache written outside the gated _get_values", f"{fi.module.relpath}:{n.lineno}")
+                st_ = prog.enclosing_stmt(n)
+                gs = atomic_guards(guards_at(prog, fi, n))
+                want_g = ("self._external_sources_allowed()", True)
+                via = None
+                rhs = getattr(st_, "value", None)
+                if isinstance(rhs, ast.Call) and call_name(rhs).startswith("self._") and call_name(rhs).count(".") == 1:
+                    hm = prog.lookup_method(gv.cls.qual, call_name(rhs)[5:])
+                    if hm is not None and hm.qual in Hv:
+                        rets = [x for x in walk_no_nested(hm.node) if isinstance(x, ast.Return)]
+                        if rets and all(want_g in atomic_guards(guards_at(prog, hm, x)) for x in rets):
+                            via = hm
+                if q in Hv and want_g in gs:
+                    r.ok("C16.R1", q, "cache written only after the gate", f"{fi.module.relpath}:{n.lineno}")
+                elif q in Hv and via is not None:
+                    r.ok("C16.R1", q, f"cache written with the result of {via.name}(), every return of which lies behind the gate", f"{fi.module.relpath}:{n.lineno}")
+                elif q in Hv:
+                    r.violation("C16.R1", q, stmt_head(st_),
+                                "_values_cache is written on a path that has not passed the gate; the cache "
+                                "short-cut at the top of _get_values would then hand out ungated data", f"{fi.module.relpath}:{n.lineno}")
+                else:
+                    r.violation("C16.R1", q, stmt_head(prog.enclosing_stmt(n)),
+                                "_values_cache written outside the gated _get_values", f"{fi.module.relpath}:{n.lineno}")
     r.analysed["C16.sinks_found"] = n_sinks
     r.floor("C16.R1", 9)
 
@@ -350,6 +412,31 @@ def r2_capabilities(ctx) -> None:
                 loc = f"{fi.module.relpath}:{p.lineno}"
                 if dflt is None:
                     if fi.name in ("__init__",):
+                        continue
+                    if fi.name.startswith("_") and fi.cls is not None:
+                        # a private helper that must be given the capability: every call in the package hands over the
+                        # caller's own same-named parameter or a disabling constant
+                        names_ = [x.arg for x in pos]
+                        off = 1 if names_ and names_[0] in ("self", "cls") else 0
+                        idx = names_.index(p.arg) - off if p.arg in names_ else None
+                        sites, bad_site = 0, None
+                        for q2, g in prog.funcs.items():
+                            for c2 in walk_no_nested(g.node):
+                                if isinstance(c2, ast.Call) and isinstance(c2.func, ast.Attribute) and c2.func.attr == fi.name:
+                                    sites += 1
+                                    given = next((k.value for k in c2.keywords if k.arg == p.arg), None)
+                                    if given is None and idx is not None and idx < len(c2.args) and not any(isinstance(a_, ast.Starred) for a_ in c2.args):
+                                        given = c2.args[idx]
+                                    if given is None:
+                                        bad_site = (q2, c2, "not given")
+                                    elif isinstance(given, ast.Name) and given.id == p.arg and p.arg in g.params():
+                                        pass
+                                    elif _trusted_path_value(g, given, p.arg) is not None:
+                                        bad_site = (q2, c2, f"given {short(given, 60)}")
+                        if bad_site is None:
+                            r.ok("C16.R2b", q, f"parameter {p.arg} of a private helper has no default; its {sites} call(s) hand over the caller's own {p.arg} or a disabling constant", loc)
+                        else:
+                            r.violation("C16.R2b", q, f"parameter {p.arg}", f"capability parameter without a default, and the call in {bad_site[0]} ({short(bad_site[1], 60)}) has it {bad_site[2]}", loc)
                         continue
                     r.violation("C16.R2b", q, f"parameter {p.arg}", "capability parameter without a default", loc)
                 elif isinstance(dflt, ast.Constant) and dflt.value in (False, None):
